@@ -20,6 +20,10 @@ PRINTABLE = [chr(i) for i in range(32, 127)]
 SUBCHARS = list("aX_1 .,()[]|'\"\\+-*/:;<=>~@^#&%!?$`{}") + ["\n"]
 
 
+# aggregate syntax (sum<X>) lives on '<' Variable '>' which the 26 tokens do not contain: a fourth small family
+AGG_TOKENS = ["a", "X", "<", ">", ".", "(", ")", ",", " :- "]
+
+
 def strings_over(alphabet, length, prefix=()):
     """all strings of exactly `length` symbols that start with `prefix` (a tuple of symbols)"""
     rest = length - len(prefix)
@@ -49,10 +53,11 @@ LEAVES = ["a", "X", "1", "-1", "2.5", "-2.5", "_", "[]", "[a,X]", "[a|T]", '"s"'
           "0.5::a", "1.0e20", "0x1F", "!"]
 LEAVES_INNER = ["a", "X", "-1", "2.5", "[a|T]", "f(a)"]
 
-CONTEXTS = ["%s.", "q(%s).", "q :- %s.", "0.5::q(%s).", "q(a,%s).", "q([%s]).", "%s :- q.", "0.5::%s.",
-            "0.5::a; 0.5::b :- %s.", "q :- \\+ (%s)."]
-CONTEXTS_QUICK = CONTEXTS
-CONTEXTS_DEEP = ["%s.", "q(%s).", "q :- %s."]
+# contexts; an argument / operand position that needs its own parentheses for high-priority operators is written
+# with them ("q((%s))": the parser rejects "q((a);(b))" but accepts "q(((a);(b)))")
+CONTEXTS = ["%s.", "q((%s)).", "q(%s).", "q :- %s.", "q :- (%s).", "0.5::q(%s).", "q(a,(%s)).", "q([%s]).",
+            "q([(%s)]).", "%s :- q.", "0.5::%s.", "0.5::a; 0.5::b :- %s.", "q :- \\+ (%s)."]
+CONTEXTS_DEEP = ["%s.", "q((%s)).", "q :- (%s)."]
 
 
 def is_alpha(op):
